@@ -135,9 +135,11 @@ fn eat_metric(parser: &mut Parser, recovery: TokenSet) -> bool {
             expect_variation_location_and_value(parser, recovery.add(Kind::RParen))
         }) {
             while !parser.at_eof() && !parser.matches(0, Kind::RParen) {
+                let pos = parser.nth_range(0).start;
                 if !parser.in_node(AstKind::LocationValueNode, |parser| {
                     eat_variation_location_and_value(parser, recovery.add(Kind::RParen))
-                }) {
+                }) || parser.nth_range(0).start == pos
+                {
                     break;
                 }
             }
@@ -327,7 +329,8 @@ fn eat_location_item(parser: &mut Parser, recovery: TokenSet) -> bool {
     }
 
     parser.in_node(AstKind::LocationSpecItemNode, |parser| {
-        parser.eat_tag();
+        // reports and skips something tag-like that is not a tag
+        parser.expect_tag(recovery.add(Kind::Comma));
         parser.expect_recover(Kind::Eq, recovery.add(Kind::Comma));
         if !expect_axis_location(parser) {
             parser.err_recover(
